@@ -148,11 +148,12 @@ Plan generate(Rng &rng, const Opts &opts, uint64_t)
         }
         p.steps.push_back(s);
     }
+    bool withIds = opts.f("edgeids", rng.chance(1, 2) ? 1 : 0) != 0;
     auto edge = [&](long i, long j) {
         if (i != j && comp[size_t(i)] != comp[size_t(j)]) {
             Step s;
             s.op = "EDGE";
-            s.a = {i, j};
+            s.a = {i, j, withIds ? long(rng.below(3)) : 0}; // 0 plain, 1 four-argument form with ids, 2 ids set afterwards
             p.steps.push_back(s);
             return true;
         }
@@ -231,6 +232,26 @@ Plan generate(Rng &rng, const Opts &opts, uint64_t)
                 edge(long(rng.below(uint64_t(nVars))), long(rng.below(uint64_t(nVars))));
             }
         }
+        }
+    }
+    // a history before the analysis: equivalences are cut again (singly, or all of a variable's at once) and
+    // some are re-made, so that whatever the library keeps per equivalence (ids, caches) can go stale
+    if (!havePlant && opts.f("cuts", rng.chance(1, 2) ? 1 : 0) != 0) {
+        long nCuts = rng.range(1, 4);
+        for (long k = 0; k < nCuts; ++k) {
+            Step s;
+            if (rng.chance(1, 2)) {
+                s.op = "CLEAREQ";
+                s.a = {long(rng.below(uint64_t(nVars)))};
+            } else {
+                s.op = "UNEDGE";
+                s.a = {long(rng.below(uint64_t(nVars))), long(rng.below(uint64_t(nVars)))};
+            }
+            p.steps.push_back(s);
+        }
+        long nRe = rng.range(0, 2);
+        for (long k = 0; k < nRe; ++k) {
+            edge(long(rng.below(uint64_t(nVars))), long(rng.below(uint64_t(nVars))));
         }
     }
     Step an;
@@ -394,9 +415,45 @@ void execute(const Plan &plan, Ctx &ctx)
             if (i == j || varComp[i] == varComp[j]) {
                 continue;
             }
-            bool ok = Variable::addEquivalence(vars[i], vars[j]);
+            bool ok;
+            long form = ((s.arg(2) % 3) + 3) % 3;
+            if (form == 1) {
+                ok = Variable::addEquivalence(vars[i], vars[j], "map_" + str(stepNo), "con_" + str(std::min(varComp[i], varComp[j])) + "_" + str(std::max(varComp[i], varComp[j])));
+            } else {
+                ok = Variable::addEquivalence(vars[i], vars[j]);
+                if (form == 2) {
+                    // ids through the setter, which also accepts pairs that are only indirectly equivalent
+                    Variable::setEquivalenceMappingId(vars[i], vars[j], "map_" + str(stepNo));
+                    for (size_t k = 0; k < vars.size(); ++k) {
+                        if (k != i && k != j && vars[i]->hasEquivalentVariable(vars[k], true) && ((k + size_t(stepNo)) % 3) == 0) {
+                            Variable::setEquivalenceMappingId(vars[i], vars[k], "imap_" + str(stepNo) + "_" + str(k));
+                        }
+                    }
+                }
+            }
             edges.emplace_back(long(i), long(j));
+            ctx.count(form == 0 ? "edges_plain" : "edges_with_ids");
             ctx.ev("EDGE " + str(i) + " " + str(j) + " -> " + str(ok));
+        } else if (s.op == "UNEDGE") {
+            if (am != nullptr || vars.size() < 2) {
+                continue;
+            }
+            ctx.begin(stepNo, "UNEDGE", "");
+            size_t i = size_t(s.arg(0)) % vars.size(), j = size_t(s.arg(1)) % vars.size();
+            bool ok = Variable::removeEquivalence(vars[i], vars[j]);
+            edges.erase(std::remove_if(edges.begin(), edges.end(), [&](const std::pair<long, long> &pr) { return (pr.first == long(i) && pr.second == long(j)) || (pr.first == long(j) && pr.second == long(i)); }), edges.end());
+            ctx.count("fault_equivalence_cut_before_analysis");
+            ctx.ev("UNEDGE " + str(i) + " " + str(j) + " -> " + str(ok));
+        } else if (s.op == "CLEAREQ") {
+            if (am != nullptr || vars.empty()) {
+                continue;
+            }
+            ctx.begin(stepNo, "CLEAREQ", "");
+            size_t i = size_t(s.arg(0)) % vars.size();
+            vars[i]->removeAllEquivalences();
+            edges.erase(std::remove_if(edges.begin(), edges.end(), [&](const std::pair<long, long> &pr) { return pr.first == long(i) || pr.second == long(i); }), edges.end());
+            ctx.count("fault_equivalence_cut_before_analysis");
+            ctx.ev("CLEAREQ " + str(i));
         } else if (s.op == "ANALYSE") {
             if (am != nullptr || vars.empty()) {
                 continue;
@@ -483,7 +540,7 @@ void execute(const Plan &plan, Ctx &ctx)
                 ctx.violate("C18", "no-analyser-model", "", "Analyser::model() is null after analyseModel");
                 return;
             }
-            ctx.ev("ANALYSE type=" + AnalyserModel::typeAsString(am->type()) + " issues=" + str(analyser->issueCount()) + " vars=" + str(am->variableCount()));
+            ctx.ev("ANALYSE type=" + AnalyserModel::typeAsString(am->type()) + " issues=" + str(analyser->issueCount()) + " vars=" + str(am->variableCount()) + (analyser->issueCount() > 0 ? " first=" + analyser->issue(0)->description() : ""));
             if (analyser->errorCount() == 0 && am->isValid()) {
                 ctx.count("valid_analyses");
                 if (am->variableCount() + am->stateCount() != classes.size()) {
